@@ -103,7 +103,7 @@ func expandNamedUUID(column *ColumnSchema, value interface{}, namedUUIDs map[str
 		valType = column.TypeObj.Value.Type
 	}
 
-	if valType == TypeUUID {
+	if valType == TypeUUID || (column.Type == TypeMap && keyType == TypeUUID) {
 		if m, ok := value.(OvsMap); ok {
 			for k, v := range m.GoMap {
 				if newUUID, ok := expandNamedUUIDAtomic(keyType, k, namedUUIDs); ok {
